@@ -638,6 +638,24 @@ def replay_spec_behaviour(tid, states, origin, prop):
     return run, drift
 
 
+HOSTILE = ("ConnFail", "Inject", "TamperS2C", "SrvSend", "AppClose", "ArmClose")
+
+
+def env_goal(run, drained):
+    """Must everything have arrived by now?  Decided by what the environment and the applications did in this run (not
+    by where the wormholes ended up): both applications gave the same code and never closed, the server never erred,
+    refused or tampered, and the run was completed fairly with the server reachable."""
+    if not drained or run.world is None:
+        return False
+    for a in run.schedule:
+        if a["a"] in HOSTILE or (a["a"] == "ConnOpen" and a.get("welcome_error")):
+            return False
+    w = run.world
+    if any(getattr(c, "lazy", False) for c in w.clients.values()):
+        return False
+    return len(w.clients) == 2 and all(getattr(c, "code_used", None) for c in w.clients.values()) and run.tracker.codes_match()
+
+
 def random_real_walk(tid, rng, prop, steps=60):
     """Code -> spec: a seeded random walk over the environment actions actually enabled on the real
     system, within the action families the property's environment allows."""
@@ -985,7 +1003,7 @@ def run_pipeline(prop, tier, v, quick):
             run_, drift = replay_spec_behaviour(tid, b, "tlc-sim", prop)
             drained = run_.drain()
             runs[tid] = run_
-            records.append(run_.finish(drained))
+            records.append(run_.finish(drained, goal=env_goal(run_, drained)))
             if drift:
                 ndrift += 1
                 if len(cov["drift"]) < 10:
